@@ -931,6 +931,10 @@ func (fc *FnCtx) transCall(env *Env, e *CCall) (Val, types.Type) {
 			if !ok {
 				fc.tfail("%s needs a string literal separator", id.Name)
 			}
+			if !fc.splitSpec {
+				fc.splitSpec = true
+				fc.newKey = true // re-execute: strings.Split calls must use the axiomatic model
+			}
 			nf, atf, ok := fc.splitFns(fc.strLit(sl.Val))
 			if !ok {
 				fc.tfail("%s: separator must be one byte", id.Name)
@@ -947,12 +951,20 @@ func (fc *FnCtx) transCall(env *Env, e *CCall) (Val, types.Type) {
 			if !ok1 || !ok2 {
 				fc.tfail("calledAfter needs two string literals")
 			}
+			if env.calleeFn != nil || env.con != fc.con {
+				// a callee's contract evaluated at a call site: its call history is not the caller's
+				return tb.Fresh("callee_calledafter", "Bool"), boolT
+			}
 			return fc.calledAfterFlag(env.st, sx.Val, sy.Val), boolT
 		case "called":
 			// called("NAME"): a call to NAME has been executed earlier on this path of the function
 			s, ok := e.Args[0].(*CStr)
 			if !ok {
 				fc.tfail("called needs a string literal")
+			}
+			if env.calleeFn != nil || env.con != fc.con {
+				// a callee's contract evaluated at a call site: its call history is not the caller's
+				return tb.Fresh("callee_called", "Bool"), boolT
 			}
 			return fc.calledFlag(env.st, s.Val), boolT
 		case "infunc":
